@@ -147,10 +147,33 @@ impl Prop for C15 {
                 workers: 8,
                 build: Build::Normal,
             },
+            Leg {
+                name: "huge",
+                kind: LegKind::Random {
+                    cases: tier.pick(6, 60),
+                },
+                workers: 16,
+                build: Build::Normal,
+            },
         ]
     }
 
-    fn strategy(_leg: &str, tier: Tier) -> BoxedStrategy<Case> {
+    fn strategy(leg: &str, tier: Tier) -> BoxedStrategy<Case> {
+        if leg == "huge" {
+            // orders 128..900 (a worker decides thousands of pairs)
+            return (0..3_u8, 0..4_u8, 128..=900_usize, any::<u64>(), prop_oneof![Just(0.0_f64), Just(1.0), 0.0..0.05_f64, 0.95..=1.0_f64], 1..=16_usize)
+                .prop_map(|(gen, repr, order, seed, p, cpus)| Case {
+                    gen,
+                    repr,
+                    // erdos_renyi near p = 1 builds order^2 arcs: cap it
+                    order: if gen == 2 && p > 0.5 { order.min(400) } else { order },
+                    seed,
+                    p_kind: 0,
+                    p,
+                    cpus,
+                })
+                .boxed();
+        }
         (
             0..3_u8,
             0..4_u8,
